@@ -261,6 +261,15 @@ def r4_send(L, repo, tier):
                         bad.append(canon(c)[:60])
         L.ob("C13.R4", F2, fn, "no datagram is emitted after a rejected encode: nothing reachable from the handler calls a sending method (%s)" % ", ".join(sorted(sending)),
              [], bad, not bad, h.line)
+    # ... and a message that did encode IS sent: once gen_msg() has returned, every path to the end of send_msg() passes
+    # the send (no size / state condition may withhold a valid message)
+    send_nodes = [cfg.node_of(s_) for s_ in sends]
+    for g in gens:
+        gn = cfg.node_of(g)
+        r_ = cfg.reach(gn, skip_nodes=send_nodes, labels_skip=("exc",))
+        L.ob("C13.R4", F2, fn, "a message that encoded without error is sent on every path (nothing between gen_msg() and the send can skip it)",
+             "the send post-dominates the successful encode", "an exit is reachable without sending" if cfg.exit.id in r_ else "post-dominates",
+             cfg.exit.id not in r_, g.lineno)
     for g in gens:
         gn = cfg.node_of(g)
         L.ob("C13.R4", F2, fn, "gen_msg() is called inside the try block", "inside try", len(gn.trys),
